@@ -107,6 +107,10 @@ class WebBrowser(Application, discriminator="web-browser"):
             self.sys_log.warning(f"{url} is not a valid URL")
             return False
 
+        if not url or not parsed_url.hostname:
+            self.sys_log.warning(f"{self.name}: No target URL to request")
+            return False
+
         # get the IP address of the domain name via DNS
         dns_client: DNSClient = self.software_manager.software.get("dns-client")
         domain_exists = dns_client.check_domain_exists(target_domain=parsed_url.hostname)
